@@ -244,10 +244,9 @@ class KRSession(SessionBase):
         if cls == 'grey':
             self.skip('krylov_grey_zone')
             return 'grey'
-        hz = ko.orth_horizon(self.A, Q, normA)
-        if hz < min(m, Q.shape[1]):
-            self.probe('lanczos_ritz_converged_guard')
-        self.report('C14', ko.check_lanczos(self.A, vb, m, out, cls, K, normA, horizon=hz), 'lanczos', cls, m)
+        if ko.orth_horizon(self.A, Q, normA) < min(m, Q.shape[1]):
+            self.probe('lanczos_ritz_converged_before_end')
+        self.report('C14', ko.check_lanczos(self.A, vb, m, out, cls, K, normA), 'lanczos', cls, m)
         return 'ok'
 
     def op_arnoldi(self, op):
@@ -291,8 +290,7 @@ class KRSession(SessionBase):
         if cls == 'grey':
             self.skip('krylov_grey_zone')
             return 'grey'
-        hz = ko.orth_horizon(self.A, Q, normA)
-        self.report('C15', ko.check_eigh_krylov(self.A, vb, m, numeig, out, cls, K, normA, Q, kret=kret.get('k'), horizon=hz), 'eigh_krylov', cls, m)
+        self.report('C15', ko.check_eigh_krylov(self.A, vb, m, numeig, out, cls, K, normA, Q, kret=kret.get('k')), 'eigh_krylov', cls, m)
         return 'ok'
 
     def op_expm(self, op):
